@@ -23,7 +23,8 @@ RULE = ("default POSC database, read only. (A) every unit (thorough; a seeded th
         "the unit's quantity type x {Scalar, Array, FixedArray, FractionScalar} x 2 sampled values (floats, ints, "
         "list/tuple/ndarray containers, FractionValue): all documented forms (v,u) (v,u,c) (c,v,u) ((v,u)) "
         "(ObtainQuantity(u,c),v) CreateWithQuantity keyword-call ObtainQuantity(u); values include Python ints that "
-        "no double holds exactly (2**53+1, 10**23, ...), bools and numpy integers, sent with their float image: result (error kind or class, "
+        "no double holds exactly (2**53+1, 10**23, ...), bools and numpy integers, sent with their float image; Array and "
+        "FixedArray values include lists/tuples of tuples (n tuples of size k, n != k, n == k, ragged): result (error kind or class, "
         "category, unit, quantity type, value, dimension) and == against the first form in both directions; "
         "eval(repr) for the Scalar cases; (B) all categories x 4 classes: category only vs default value/unit forms "
         "and the default converted into other units; (C) a malformed stream (wrong orders, missing unit, unit of "
@@ -41,6 +42,8 @@ ASSUMPTIONS = [
     "(also through eval(repr)), everything else exactly",
     "float() of a 1-d ndarray is a TypeError whatever its size (numpy >= 2.4); len()/tuple() of a str count bytes "
     "(unit symbols, category names and the generated string arguments are ASCII)",
+    "== between an ndarray-valued and a tuples-valued Array (numpy broadcasts a scalar against a tuple) is not "
+    "modelled and not generated: a case holds ndarrays or lists of tuples, never both",
     "default_unit of a registered category is never None (AddCategory falls back to the base unit)",
 ]
 CLS = ("scalar", "array", "fixed", "fraction")
@@ -83,6 +86,11 @@ SPECIAL = [2 ** 53 + 1, -(2 ** 53 + 1), 10 ** 23, -(2 ** 60) - 1, 12345678901234
 
 def SEQ(kind, items):
     return {"seq": kind, "items": [A(i) for i in items]}
+
+
+def ROWS(kind, rows):
+    """a list (kind "list") or tuple (kind "tuple") of tuples, e.g. [(100, 150), (50, 50)]"""
+    return {"rows": kind, "items": [[A(i) for i in r] for r in rows]}
 
 
 def FV(number, num, den):
@@ -139,6 +147,9 @@ def py_arg(j):
 
     if j is None:
         return None
+    if "rows" in j:
+        rows = [tuple(py_atom(i) for i in r) for r in j["items"]]
+        return rows if j["rows"] == "list" else tuple(rows)
     if "seq" in j:
         items = [py_atom(i) for i in j["items"]]
         if j["seq"] == "list":
@@ -161,6 +172,8 @@ def canon_atom(x):
         return None
     if isinstance(x, str):
         return {"s": str(sym(x))}
+    if isinstance(x, tuple):
+        return {"row": [canon_atom(i) for i in x]}
     if isinstance(x, (bool, numpy.bool_)):
         return {"other": repr(x)}
     if isinstance(x, (int, float, numpy.number)):
@@ -280,14 +293,26 @@ def _scalar_value(rng):
                        rng.choice(SPECIAL), rng.choice(SPECIAL)])
 
 
-def _container(rng, n=None):
+def _container(rng, n=None, nda=True):
     n = n or rng.randint(2, 4)
     items = [rng.choice([1.0, 2.5, -3.0, 0.0, rng.uniform(-100, 100), rng.randint(-9, 9), rng.choice(SPECIAL)])
              for _ in range(n)]
-    kind = rng.choice(["list", "tuple", "nda"])
+    kind = rng.choice(["list", "tuple", "nda"] if nda else ["list", "tuple", "list"])
     if kind == "nda":
         items = [float(i) for i in items]
     return SEQ(kind, items)
+
+
+def _rows(rng, n=None, k=None, ragged=None):
+    """a list/tuple of n tuples of size k: non-square (n != k), square, or ragged (sizes differ, possibly 0)"""
+    n = n or rng.randint(2, 4)
+    if ragged is None:
+        ragged = rng.random() < 0.25
+    if k is None:
+        k = rng.choice([n, n, n + 1, n + 2, max(1, n - 1), 1])
+    sizes = [rng.randint(0, 4) for _ in range(n)] if ragged else [k] * n
+    item = lambda: rng.choice([1.0, 2.5, -3.0, 0.0, rng.uniform(-100, 100), rng.randint(-9, 9), 100, 150, 50])  # noqa
+    return ROWS(rng.choice(["list", "list", "tuple"]), [[item() for _ in range(m)] for m in sizes])
 
 
 def _fraction_value(rng):
@@ -324,7 +349,7 @@ def _value_for(cls, rng):
         return _scalar_value(rng)
     if cls == "fraction":
         return _fraction_value(rng)
-    return _container(rng)
+    return _rows(rng) if rng.random() < 0.3 else _container(rng)
 
 
 def _case(kind, forms, want_repr=False, **t):
@@ -363,6 +388,23 @@ def special_cases(ctx, rng, nunits):
             yield _case("unit", unit_forms("fraction", u, dc, v, True), unit=u, category=dc, default=True)
             yield _case("unit", unit_forms("array", u, dc, box, True), unit=u, category=dc, default=True)
             yield _case("unit", unit_forms("fixed", u, dc, box, True), unit=u, category=dc, default=True)
+
+
+def rows_cases(ctx, rng, nunits):
+    """Array and FixedArray from lists/tuples of tuples of every shape (n tuples of size k: n < k, n > k, n == k,
+    ragged), in every documented form incl. CreateWithQuantity with and without dimension=, on a seeded sample of
+    units with their default category"""
+    db = ctx.db
+    shapes = [(2, 3, False), (3, 2, False), (2, 2, False), (3, 3, False), (4, 1, False), (2, 5, False),
+              (3, None, True), (2, None, True)]
+    for _qt, u in rng.sample(ctx.units, min(nunits, len(ctx.units))):
+        dc = db.GetDefaultCategory(u)
+        if not dc:
+            continue
+        for n, k, ragged in shapes:
+            v = _rows(rng, n, k, ragged)
+            for cls in ("array", "fixed"):
+                yield _case("unit", unit_forms(cls, u, dc, v, True), unit=u, category=dc, default=True)
 
 
 def category_cases(ctx, rng, nconv=2):
@@ -416,6 +458,10 @@ def malformed_cases(ctx, rng, n):
                            "1000ft3xyz", unit_of_other_type(c), "Unknown", "<unknown>", "unknown",
                            rng.choice(SPECIAL)])
 
+    # one malformed case has either ndarrays or lists of tuples among its containers, never both: `==` between an
+    # ndarray-valued and a tuples-valued Array broadcasts a numpy scalar against a tuple, which is not modelled
+    mode = {"rows": False}
+
     def arg(c, u):
         r = rng.random()
         if r < 0.55:
@@ -424,15 +470,26 @@ def malformed_cases(ctx, rng, n):
             return SEQ(rng.choice(["tuple", "list"]), [atom(c, u) for _ in range(rng.choice([0, 1, 1, 2, 2, 2, 3]))])
         if r < 0.72:
             return SEQ("tuple", [_scalar_value(rng), rng.choice([u, u, "nope", None, 3])])
+        if r < 0.76 or (r < 0.80 and not mode["rows"]):
+            return _container(rng, rng.choice([1, 2, 3]), nda=not mode["rows"])
         if r < 0.80:
-            return _container(rng, rng.choice([1, 2, 3]))
+            # lists of tuples, among them the "composing units" shapes [(unit, exponent)]
+            if rng.random() < 0.5:
+                return ROWS(rng.choice(["list", "tuple"]),
+                            [[rng.choice([u, u, c, None, 3, "nope"]), rng.choice([1, 1, 1.0, True, 2, -1, None, u])]
+                             + ([7] if rng.random() < 0.2 else [])
+                             for _ in range(rng.choice([1, 1, 1, 2]))])
+            if rng.random() < 0.3:
+                return ROWS(rng.choice(["list", "tuple"]), [[rng.choice([u, 1.0])] for _ in range(rng.choice([1, 2]))])
+            return _rows(rng, rng.choice([1, 2, 3]))
         if r < 0.83:
-            return SEQ("nda", [])
+            return SEQ("list" if mode["rows"] else "nda", [])
         if r < 0.90:
             return _fraction_value(rng)
         return OQ(rng.choice([u, u, u, None, 3.0, "nope", rng.choice(units)]), rng.choice([c, c, None, "nope", 2.0]))
 
     for i in range(n):
+        mode["rows"] = rng.random() < 0.5
         qt, u = rng.choice(ctx.units)
         cats = ctx.cats_of.get(qt) or ctx.cats
         c = rng.choice(cats)
@@ -457,7 +514,7 @@ def malformed_cases(ctx, rng, n):
         v = _scalar_value(rng)
         w = unit_of_other_type(c)
         for cls in CLS:
-            vv = v if cls in ("scalar", "fraction") else _container(rng, 3)
+            vv = v if cls in ("scalar", "fraction") else (_rows(rng, 3) if rng.random() < 0.3 else _container(rng, 3))
             yield _case("malformed", [
                 form(cls, c, vv, dim=3), form(cls, u, vv, dim=3), form(cls, vv, c, u, dim=3), form(cls, u, c, v, dim=3),
                 form(cls, vv, w, c, dim=3), form(cls, c, vv, w, dim=3), form(cls, vv, u, "nope", dim=3),
@@ -498,6 +555,7 @@ def cases(ctx):
         units = sorted(rng.sample(units, len(units) // 3), key=lambda t: ctx.units.index(t))
     yield from unit_cases(ctx, units, rng, 2)
     yield from special_cases(ctx, ctx.fresh_rng("C19special"), 25 if ctx.tier == "quick" else 150)
+    yield from rows_cases(ctx, ctx.fresh_rng("C19rows"), 25 if ctx.tier == "quick" else 150)
     yield from category_cases(ctx, rng, 1 if ctx.tier == "quick" else 3)
     yield from malformed_cases(ctx, ctx.fresh_rng("C19bad"), 1500 if ctx.tier == "quick" else 15000)
     yield from lit_cases(ctx, ctx.fresh_rng("C19lit"), 300 if ctx.tier == "quick" else 3000)
@@ -531,6 +589,9 @@ def _show_atom(j):
 
 
 def _show_arg(j):
+    if isinstance(j, dict) and "rows" in j:
+        rows = [tuple(_show_atom(i) for i in r) for r in j["items"]]
+        return repr(rows if j["rows"] == "list" else tuple(rows))
     if isinstance(j, dict) and "seq" in j:
         return "%s%r" % (j["seq"], [_show_atom(i) for i in j["items"]])
     if isinstance(j, dict) and "fv" in j:
@@ -804,6 +865,7 @@ def table_candidates(ctx):
 def search(ctx):
     rng = ctx.fresh_rng("C19search")
     yield from special_cases(ctx, rng, 12)
+    yield from rows_cases(ctx, rng, 12)
     yield from category_cases(ctx, rng, 0)
     yield from unit_cases(ctx, ctx.units, rng, 1, only_default=True)
     yield from unit_cases(ctx, ctx.units, rng, 2, only_default=True)
